@@ -146,23 +146,40 @@ func c06Reengage(c *Ctx, p *Prog) {
 			} else if f, isF := arg.(*ssa.Function); isF {
 				cb = f
 			}
+			// a method value (t.postResize) is a closure over a bound-method wrapper: look at the method
+			if cb != nil && strings.Contains(cb.Synthetic, "bound") {
+				if t := boundTarget(arg); t != nil {
+					cb = t
+				}
+			}
 			if cb == nil {
 				detail = "callback is not a function literal"
 				continue
 			}
 			sends := ""
+			// the send may be in the callback or in a function it calls
+			cbFns := []*ssa.Function{cb}
 			eachInstr(cb, func(in ssa.Instruction) {
-				switch x := in.(type) {
-				case *ssa.Send:
-					sends = chanName(x.Chan, nil, 0)
-				case *ssa.Select:
-					for _, st := range x.States {
-						if st.Dir == types.SendOnly {
-							sends = chanName(st.Chan, nil, 0)
-						}
+				if cc := callCommon(in); cc != nil {
+					if callee := cc.StaticCallee(); callee != nil && callee.Pkg == p.Tcell && len(callee.Blocks) > 0 {
+						cbFns = append(cbFns, callee)
 					}
 				}
 			})
+			for _, cbf := range cbFns {
+				eachInstr(cbf, func(in ssa.Instruction) {
+					switch x := in.(type) {
+					case *ssa.Send:
+						sends = chanName(x.Chan, nil, 0)
+					case *ssa.Select:
+						for _, st := range x.States {
+							if st.Dir == types.SendOnly {
+								sends = chanName(st.Chan, nil, 0)
+							}
+						}
+					}
+				})
+			}
 			recv := false
 			if ml := p.Fn("tcell:(*tScreen).mainLoop"); ml != nil {
 				eachInstr(ml, func(in ssa.Instruction) {
